@@ -50,6 +50,13 @@ class Translator:
         self.fprops = {k: self._prop_expr(m) for k, m in self.classes["UKVFile"].items() if self._is_prop(m)}
         self.rprops = {k: self._prop_expr(m) for k, m in self.classes["UKVRecord"].items() if self._is_prop(m)}
         self._check_unpack_read()
+        self.class_consts = {}
+        for n in self.tree.body:
+            if isinstance(n, ast.ClassDef) and n.name == "UKVFile":
+                for st in n.body:
+                    if isinstance(st, ast.Assign) and len(st.targets) == 1 and isinstance(st.targets[0], ast.Name) \
+                            and isinstance(st.value, ast.Constant) and isinstance(st.value.value, bytes):
+                        self.class_consts[st.targets[0].id] = st.value.value
         self.tmp = 0
         self.ren = {}
         self.defined = set()
@@ -128,6 +135,9 @@ class Translator:
         if isinstance(e, ast.Attribute):
             if isinstance(e.value, ast.Name) and e.value.id in self.structs and e.attr == "size":
                 return f"(EConst (VInt {self.structs[e.value.id]}))"
+            if isinstance(e.value, ast.Attribute) and e.value.attr == "__class__" and self._is_self(e.value.value) \
+                    and e.attr in self.class_consts:               # self.__class__.FILE_H1_DEFAULT
+                return f"(EConst (VBytes {cq_bytes(self.class_consts[e.attr])}))"
             if self._is_self(e.value):
                 if rec_self is not None:                       # inside a UKVRecord property
                     if e.attr in REC_FIELDS:
@@ -150,6 +160,8 @@ class Translator:
                 return self.ex(self.rprops[e.attr], base)
             raise Refuse(f"attribute .{e.attr}")
         if isinstance(e, ast.Call):
+            if isinstance(e.func, ast.Name) and e.func.id == "dict" and not e.args and not e.keywords:
+                return "(EConst (VToc []))"
             if isinstance(e.func, ast.Name) and e.func.id == "len" and len(e.args) == 1 and not e.keywords:
                 return f"(ELen {X(e.args[0])})"
             if isinstance(e.func, ast.Name) and e.func.id == "UKVRecord" and len(e.args) == 3 and not e.keywords:
@@ -328,6 +340,11 @@ class Translator:
         if isinstance(n, ast.AugAssign) and isinstance(n.op, ast.Add) and isinstance(n.target, ast.Name):
             x = self.ren.get(n.target.id, n.target.id)
             return [f"(SAssign {cq_str(x)} (EAdd (ELocal {cq_str(x)}) {self.ex(n.value)}))"]
+        if isinstance(n, ast.AnnAssign) and n.value is not None and n.simple in (0, 1):
+            return self.st(ast.Assign(targets=[n.target], value=n.value))
+        if isinstance(n, ast.Assign) and len(n.targets) == 1 and isinstance(n.targets[0], ast.Attribute) \
+                and self._is_self(n.targets[0].value) and n.targets[0].attr == "path":
+            return []                     # self.path = Path(path): which file the object is about is fixed in the model (one file)
         if isinstance(n, ast.Assign) and len(n.targets) > 1:
             # a = b = value : the value once, then the targets from left to right
             t = self.fresh()
@@ -437,7 +454,7 @@ class Translator:
         return out
 
 
-METHODS = ["get", "put", "close", "keys", "read_header", "map_blocks", "open", "__getitem__", "__setitem__", "__enter__", "__exit__"]
+METHODS = ["get", "put", "close", "keys", "read_header", "map_blocks", "open", "__getitem__", "__setitem__", "__enter__", "__exit__", "__init__"]
 
 
 def translate(repo):
